@@ -196,8 +196,13 @@ func scanAll(fn func(cb sdb.RecordCB) error) ([][]interface{}, error) {
 
 func runC13(r *ev.Run) {
 	r.Rule = "every index b-tree shape within bounds (T1 indexes with DESC/NOCASE/RTRIM columns, T2 WITHOUT ROWID table and its secondary index; entries in interior pages, duplicates across pages, spilled payloads) x every cut key {every prefix of every entry, last column replaced by neighbours (+-1, next float, case swap, trailing space, shorter/longer), below first, above last, one column longer than the records}: ScanMin = suffix, ScanEq = equal run, ScanRange over every ordered pair of cut keys = filtered slice of the same handle's full Scan, judged by the independent comparator; non-trivial = keys on multi-level trees"
-	b := quickBounds(r)
-	r.Set("bounds", fmt.Sprintf("%+v", b))
+	r.Set("bounds", fmt.Sprintf("%+v", allBounds(r)))
+	for _, b := range allBounds(r) {
+		c13Shapes(r, b)
+	}
+}
+
+func c13Shapes(r *ev.Run, b shapeBounds) {
 	forIndexShapes(r, b, func(si *ShapeImage) {
 		_, d, _, err := vpager.OpenImage(si.Img.Bytes)
 		if err != nil {
